@@ -66,7 +66,7 @@ def run(ctx):
 
     # ---- R13.1 bracketing
     it = interp(True)
-    r = T.to_term(it.call_function(fg, [xp, x, False, None], {}, None))
+    r = hoist_rowwise(T.to_term(it.call_function(fg, [xp, x, False, None], {}, None)))
     br = bracket_rows(r.args[0]) if fname(r) == "clip" and len(r.args) == 3 else None
     ok = br is not None and r.args[1] == 0 and sp.expand(r.args[2] - (op("len", xp) - 1)) == 0
     if not ok:
@@ -81,7 +81,7 @@ def run(ctx):
                    required=sp.Tuple(ss - 1, ss))
     # descending transform, sibling consistency
     itd = interp(False)
-    rd = T.to_term(itd.call_function(fg, [xp, x, False, None], {}, None))
+    rd = hoist_rowwise(T.to_term(itd.call_function(fg, [xp, x, False, None], {}, None)))
     xp0 = op("item", xp, sp.Integer(0))
     brd = bracket_rows(rd.args[0]) if fname(rd) == "clip" and len(rd.args) == 3 else None
     okd = False
@@ -504,6 +504,23 @@ def _interpolator_roles(di):
     return roles
 
 
+def hoist_rowwise(t):
+    """stack((F(a, c..), F(b, c..))) == F(stack((a, b)), c..) for the element-wise F in {clip, pymod} with bounds c that are not
+    arrays (numbers and lengths): limiting the two rows separately is limiting the table"""
+    if fname(t) != "stack" or not t.args or not isinstance(t.args[0], sp.Tuple) or len(t.args[0].args) < 2:
+        return t
+    rows = t.args[0].args
+    f0 = fname(rows[0])
+    if f0 not in ("clip", "pymod") or any(fname(r_) != f0 or r_.args[1:] != rows[0].args[1:] for r_ in rows):
+        return t
+    scalar = all(not any(fname(n) in ("item", "tabulate", "store", "stack", "arange") for n in sp.preorder_traversal(c))
+                 and all(fname(n) == "len" or not n.args or n.is_number or isinstance(n, (sp.Add, sp.Mul)) for n in [c])
+                 for c in rows[0].args[1:])
+    if not scalar:
+        return t
+    return op(f0, op("stack", sp.Tuple(*[r_.args[0] for r_ in rows]), *t.args[1:]), *rows[0].args[1:])
+
+
 def bracket_rows(t):
     """(row0, row1, element) of the (2, n) index array built by enclosing_points_1d, for either construction:
     a per-target loop storing the column [i-1, i] (element = the loop variable, rows are per-element terms), or two whole-row
@@ -521,7 +538,17 @@ def bracket_rows(t):
                     r_.args[1] == op("slc", NONE_T, NONE_T, NONE_T) or r_.args[1] == T.ELLIPSIS_T):
                 return r_.args[2]
             return r_
-        return filled(t.args[0].args[0]), filled(t.args[0].args[1]), None
+        r0, r1 = t.args[0].args
+
+        def per_element(r_):
+            # a vector filled one target at a time: buf[j] = v(j) for every j
+            if fname(r_) == "tabulate" and len(r_.args) >= 5 and fname(r_.args[0]) in ("empty", "zeros") and r_.args[1] == r_.args[3]:
+                return r_.args[2], r_.args[3], r_.args[4]
+            return None
+        e0, e1 = per_element(r0), per_element(r1)
+        if e0 is not None and e1 is not None and e0[2] == e1[2].xreplace({e1[1]: e0[1]}):
+            return e0[0], e1[0].xreplace({e1[1]: e0[1]}), e0[1]
+        return filled(r0), filled(r1), None
     if fname(t) == "store":
         base, chain = store_chain(t)
         rows = {}
